@@ -169,4 +169,4 @@ func vh_C11_kernel_separators_Q() { vhC11Kernel(1, 3, "a=| ", 14, false) }
 
 // thorough tier
 func vh_C11_kernel_T()     { vhC11Kernel(2, 3, "01-a", 14, false) }
-func vh_C14_converters_T() { vhC11Kernel(2, 3, "01-a.", 14, true) }
+func vh_C14_converters_T() { vhC11Kernel(1, 3, "01-a.", 14, true) }
